@@ -24,7 +24,7 @@ DTYPES = {
     "mixed": ("float32", "float64"),
 }
 BOUNDS = {"quick": 2, "thorough": 3}
-ALPHA = dict(CORE, ops1=("neg", "sum0", "sum"), consts=("s2",))
+ALPHA = dict(CORE, ops1=("neg", "sum0", "sum", "pos32"), ops2=CORE["ops2"] + ("add32", "sub16"), consts=("s2",))
 
 
 def init_for(dk):
